@@ -58,6 +58,16 @@ func andGaps(t *qast.Node) []andGap {
 	return gaps
 }
 
+// juxtRight: right operands of the chain juxtapositions — every kind of term a juxtaposed operand
+// may begin with.
+func juxtRight() []*qast.Node {
+	return append(qast.LeavesSmall(3),
+		qast.Lf(qast.Leaf{Kind: qast.LTerm, Val: qast.I("-5")}),
+		qast.Lf(qast.Leaf{Kind: qast.LTerm, Val: qast.Q("q r")}),
+		qast.Lf(qast.Leaf{Kind: qast.LEq, Field: "g", Val: qast.I("-5")}),
+		qast.Lf(qast.Leaf{Kind: qast.LTerm, Val: qast.Wi("w*")}))
+}
+
 func init() {
 	core.Register(&core.Check{
 		ID:    "C07",
@@ -73,7 +83,7 @@ func init() {
 			// unary chains of length <= 3 (4) as the left operand of a juxtaposition, in four contexts:
 			// this is where the number of pending reductions before the injected AND is largest
 			for i := range qast.LeavesSmall(4) {
-				for j := range qast.LeavesSmall(3) {
+				for j := range juxtRight() {
 					k := 3
 					if tier == "thorough" {
 						k = 4
@@ -211,7 +221,7 @@ func c07Run(w *core.Worker, tier, unit string) {
 		k, _ := strconv.Atoi(p[1])
 		i, _ := strconv.Atoi(p[2])
 		j, _ := strconv.Atoi(p[3])
-		a, b := qast.LeavesSmall(4)[i], qast.LeavesSmall(3)[j]
+		a, b := qast.LeavesSmall(4)[i], juxtRight()[j]
 		x := qast.Lf(qast.Leaf{Kind: qast.LEq, Field: "x", Val: qast.W("y")})
 		qast.Chains(a, k, func(c *qast.Node) {
 			do(qast.Bin(qast.OAnd, c, b))
